@@ -601,6 +601,7 @@ func (dht *IpfsDHT) GetValue(ctx context.Context, key string, opts ...routing.Op
 
 # ---- optimistic provide (C06, C03) -----------------------------------------------
 guarded_by optimisticState.peerStatesLk : optimisticState.peerStates
+lockinv optimisticState.peerStatesLk : self.peerStates != nil
 
 # C03: classic provide hands contexts derived from the caller's to the lookup
 # and to every ADD_PROVIDER RPC, and waits for exactly the RPC goroutines it
@@ -712,6 +713,16 @@ func (os *optimisticState) putProviderRecord(pid peer.ID)
   ensures [one-completion-signal] tagged("sent:os.doneChan")
   ghost at call(FilteredAddrs): $addrs = $ret0
   ghost at before call(PutProviderAddrs): assert($arg1 == pid && str($arg2) == os.key && $arg3.ID == os.dht.self && $arg3.Addrs == $addrs)
+
+# the stop function of an optimistic provide: under the state lock, a provider
+# record RPC is started only for a peer that has no state yet (each peer gets at
+# most one RPC) and that peer is marked scheduled
+func (os *optimisticState) stopFn(qps *qpeerset.QueryPeerset) bool
+  props C06
+  requires os.dht != nil && cfgOK(os.dht) && qpeerset.wf(qps)
+  modifies *
+  loop 0 invariant os.peerStates != nil && len(distances) == os.dht.bucketSize && len(closest) <= os.dht.bucketSize
+  ghost at go(putProviderRecord): assert(held(os.peerStatesLk) && !has(os.peerStates, p) && $arg0 == p)
 
 # The early-return wait asks for no more completions than RPCs were issued
 # (otherwise it would wait for completions that never come - doneChan is not
